@@ -176,6 +176,7 @@ func (m *machine) step(op ops.Op) (string, string) {
 		}
 		if r1.Info != nil && r2.Info != nil {
 			a, b := *r1.Info, *r2.Info
+			a.Mtime, b.Mtime = 0, 0 // the twin worlds were built at different wall-clock instants
 			if op.P == "." {
 				a.Name, b.Name = "", ""
 			}
